@@ -99,6 +99,7 @@ theorem skel_storedSessionLoader_refreshSessionIfNeeded_ok : skel_storedSessionL
   "defer",
   "for !lockObtained",
   "return errors.New(\"timeout obtaining session lock\")",
+  "errors.New",
   "session.ObtainLock",
   "if err != nil && !errors.Is(err, sessionsapi.ErrLockNotObtained)",
   "return fmt.Errorf(\"error occurred while trying to obtain lock: %v\",",
@@ -114,6 +115,7 @@ theorem skel_storedSessionLoader_refreshSessionIfNeeded_ok : skel_storedSessionL
   "return fmt.Errorf(\"could not load session: %v\", err)",
   "if freshSession == nil",
   "return errors.New(\"session no longer exists, it may have been remov",
+  "errors.New",
   "if !needsRefresh(s.refreshPeriod, session)",
   "needsRefresh",
   "return nil",
@@ -121,5 +123,30 @@ theorem skel_storedSessionLoader_refreshSessionIfNeeded_ok : skel_storedSessionL
   "s.refreshSession",
   "return s.validateSession(req.Context(), session)",
   "s.validateSession"] : List String) := rfl
+
+theorem skel_Lock_Obtain_ok : skel_Lock_Obtain = ([
+  "l.locker.Obtain",
+  "if errors.Is(err, redislock.ErrNotObtained)",
+  "return sessions.ErrLockNotObtained",
+  "if err != nil",
+  "return err",
+  "return nil"] : List String) := rfl
+
+theorem skel_ticket_loadSession_ok : skel_ticket_loadSession = ([
+  "if err != nil",
+  "return nil, fmt.Errorf(\"failed to load the session state with the ticket",
+  "if err != nil",
+  "return nil, err",
+  "sessions.DecodeSessionState",
+  "if err != nil",
+  "return nil, err",
+  "return sessionState, nil"] : List String) := rfl
+
+theorem skel_ticket_saveSession_ok : skel_ticket_saveSession = ([
+  "if err != nil",
+  "return err",
+  "if err != nil",
+  "return fmt.Errorf(\"failed to encode the session state with the tick",
+  "return saver(t.id, ciphertext, t.options.Expire)"] : List String) := rfl
 
 end O2P.Expect.C13
